@@ -173,6 +173,30 @@ Theorem C19_transport_split_all_failed : forall outcome_of r,
 Proof. exact split_round_trip_all_failed. Qed.
 Print Assumptions C19_transport_split_all_failed.
 
+(* ---- the fan-out mergers: ListGroups (one request per broker), DescribeGroups (one per
+   group, to its coordinator), DescribeConfigs (one per broker resource + the topic resources) ----
+   NO SILENT DROP: either every sub-request was answered and the result is the concatenation
+   of all their items in request order, or the call fails with the error of a failed sub-request;
+   a failed part is never skipped. *)
+Theorem C19_fanout_no_silent_drop : forall (A : Type) (results : list (part_result A)),
+  match concat_merge results with
+  | FanOk l => exists parts, results = map PartOk parts /\ l = concat parts
+  | FanErr e => exists pre rest, results = map PartOk pre ++ PartErr e :: rest
+  end.
+Proof. exact fanout_no_silent_drop. Qed.
+Print Assumptions C19_fanout_no_silent_drop.
+
+(* ListGroups: additionally every group is attributed to the broker that listed it *)
+Theorem C19_listgroups_no_silent_drop : forall (A : Type) (brokers : list Z) (results : list (part_result A)),
+  length brokers = length results ->
+  match listgroups_merge brokers results with
+  | FanOk l => exists parts, results = map PartOk parts /\
+                 l = concat (map (fun bp => map (fun g => (g, fst bp)) (snd bp)) (combine brokers parts))
+  | FanErr e => In (PartErr e) results
+  end.
+Proof. exact listgroups_no_silent_drop. Qed.
+Print Assumptions C19_listgroups_no_silent_drop.
+
 (* ======================= user-level mappings ======================= *)
 
 Theorem C19_mapping_exact_offsetfetch : forall r,
